@@ -12,6 +12,7 @@ import (
 	"go.nanomsg.org/mangos/v3"
 	_ "go.nanomsg.org/mangos/v3/transport/tcp"
 	_ "go.nanomsg.org/mangos/v3/vh/vipc"
+	"go.nanomsg.org/mangos/v3/vh/c06"
 	"go.nanomsg.org/mangos/v3/vh/c07"
 	"go.nanomsg.org/mangos/v3/vh/c13"
 	"go.nanomsg.org/mangos/v3/vh/c19"
@@ -59,6 +60,7 @@ func init() {
 			{Name: "stream-recv-sizes", Mode: "enum", Reset: kit.ResetGlobals, Body: recvSizes},
 			{Name: "stream-every-length", Mode: "enum", Reset: kit.ResetGlobals, Body: func() { EveryLength(map[bool]int{false: 2200, true: 9000}[tier == "thorough"]) }, NeedCounters: []string{"every-length-written-exact", "every-length-received-exact"}},
 			{Name: "stream-long-protocol-headers", Mode: "enum", Reset: kit.ResetGlobals, Body: LongHeaders, NeedCounters: []string{"header-over-32-bytes-written-exact"}},
+			{Name: "one-publication-several-sub-contexts-each-exact", Mode: "enum", Reset: kit.ResetGlobals, Body: c06.SharedPublication, NeedCounters: []string{"three-or-more-receivers-each-exact"}},
 			{Name: "stream-limit-changed-after-listen", Mode: "enum", Reset: kit.ResetGlobals, Body: limitAfterListen, NeedCounters: []string{"delivered-at-new-limit"}},
 			{Name: "stream-ends-inside-the-frame-after-a-complete-message", Mode: "enum", Reset: kit.ResetGlobals, Body: truncatedAfterComplete, NeedCounters: []string{"ended-right-after-length-prefix", "ended-inside-payload"}},
 			{Name: "stream-full-duplex", Mode: "sched", Bound: map[string]int{"quick": 2, "thorough": 3}[tier], Reset: kit.ResetGlobals, Body: fullDuplex},
